@@ -73,6 +73,8 @@ class World(object):
         self.builtins = self._make_builtins()
         self.externals = self._make_externals()
         self.path_globals = {}
+        self.globals_written = set()
+        self.globals_read = set()    # module-level variables (assigned names) read on any path: frame conditions
 
     # ------------------------------------------------------------------ per path
     def begin_path(self, it):
@@ -191,6 +193,8 @@ class World(object):
 
     def global_lookup(self, it, module, name):
         key = (module.name, name)
+        if name in module.assigns:
+            self.globals_read.add(key)
         if key in self.global_overrides:
             v = self.global_overrides[key]
             return v(it) if callable(v) and not isinstance(v, (Closure, Builtin, AbstractCallable, ClassRef)) else v
@@ -229,6 +233,7 @@ class World(object):
         it.raise_('NameError', name)
 
     def global_store(self, it, module, name, value):
+        self.globals_written.add((module.name, name))
         self.path_globals[(module.name, name)] = value
 
     def exc_name(self, it, module, expr):
@@ -535,6 +540,9 @@ class World(object):
                 else:
                     v = w.ops.iter_view(it, src)
                     if not isinstance(v, list):
+                        h = w.hooks.get('dict_from_pairs')
+                        if h is not None and not kw:
+                            return h(it, v)
                         raise OutOfSubset('dict() of symbolic iterable')
                     for kv in v:
                         k, x = w.ops.unpack(it, kv, 2)
